@@ -104,7 +104,7 @@ def judge_stream(ctx, yielded, wire_text, case, where):
         elif not expected:
             key = "event-dispatched-for-dataless-or-ping"
         else:
-            key = f"event-count|{'more' if len(p.events) > len(expected) else 'fewer'}|{','.join(kinds)}"
+            key = f"event-count|{'more' if len(p.events) > len(expected) else 'fewer'}-than-yielded"
         ctx.violation(f"{key}|{where}", case, f"expected {len(expected)} events, parser dispatched {len(p.events)}: {p.events!r}\nwire={wire_text!r}")
         return
     for got, exp in zip(p.events, expected):
